@@ -4,7 +4,7 @@
 cd "$(dirname "$0")/.." || exit 2
 LOG=${1:-/var/tmp/vx-thorough.log}
 : > "$LOG"
-for c in C12 C13 C19 C20 C05 C04 C03 C02 C17 C18 C08 C14 C15 C10 C16 C09 C07 C11 C06 C01; do
+for c in ${CHECKS:-C12 C13 C19 C20 C05 C04 C03 C02 C17 C18 C08 C14 C15 C10 C16 C09 C07 C11 C06 C01}; do
   s=$(date +%s)
   out=$(timeout 4000 bin/vx check $c --tier thorough 2>&1); rc=$?
   e=$(date +%s)
